@@ -47,6 +47,7 @@ class Run:
         self.trusted = ['CPython ast module', 'aylint engine (srcmodel, cfg, fde, effects, pathbase, escape)']
         self.quiet = quiet
         self.current_rule = None
+        self.sweep = None
 
     # -- recording ---------------------------------------------------------------------
     def ok(self, rule, fn_or_where, instance, detail=''):
@@ -149,6 +150,7 @@ class Run:
                 selftest=[dict(name=a, expected=b, got=c, ok=d) for a, b, c, d in self.selftest],
                 infos=['%s %s %s' % i for i in self.infos][:100],
                 known_findings=sorted(seen_known), new_violations=sorted(seen_new),
+                mutation_sweep=self.sweep,
                 checker_cmd='/venv/bin/python -m aylint check %s --tier %s' % (self.prop, self.tier),
                 trusted_base=self.trusted,
             ),
@@ -159,6 +161,10 @@ class Run:
         os.makedirs(EVIDENCE_DIR, exist_ok=True)
         with open(os.path.join(EVIDENCE_DIR, '%s.json' % self.prop), 'w') as f:
             json.dump(ev, f, indent=1, sort_keys=True)
+        if not self.quiet and self.sweep:
+            st = self.sweep['stats']
+            print('%s [thorough] mutation sweep over %d functions: %d mutants, killed=%d no-verdict=%d survived=%d' % (
+                self.prop, self.sweep['functions'], self.sweep['mutants'], st.get('killed', 0), st.get('no-verdict', 0), st.get('survived', 0)))
         if not self.quiet:
             print('%s [%s] rules=%d obligations=%d discharged=%d known=%d new=%d selftest=%d/%d wall=%.2fs' % (
                 self.prop, self.tier, len(self.rule_counts), n_all, n_ok, len(seen_known), len(seen_new),
